@@ -224,6 +224,11 @@ fn own_errors(ctx: &mut Ctx) {
         (vec!["-s".into(), "8".into(), "cmd".into()], "aaaaaaaaaaaaaaaa\n", "argument too long for -s"),
         (vec!["-s".into(), "8".into(), "-x".into(), "-n2".into(), "cmd".into()], "aa bb\n", "argument list too long with -x"),
         (vec!["-s".into(), "3".into(), "cmd".into()], "a\n", "command line alone exceeds -s"),
+        // the same errors after earlier command lines have been run
+        (vec!["-s".into(), "30".into(), "-n1".into(), "cmd".into()], "a\nb\naaaaaaaaaaaaaaaaaaaaaaaaaaaaa\n", "argument too long for -s, after two command lines were run"),
+        (vec!["-s".into(), "30".into(), "cmd".into()], "aaaaaaaaaaaaaaaaaaaa bbbbbbbbbbbbbbbbbbbb\naaaaaaaaaaaaaaaaaaaaaaaaaaaaa\n", "argument too long for -s, after the limit closed earlier command lines"),
+        (vec!["-n1".into(), "cmd".into()], "a\nb\nc 'd\n", "unterminated quote after earlier command lines"),
+        (vec!["-s".into(), "12".into(), "-x".into(), "-n2".into(), "cmd".into()], "a b\ncccc dddd\n", "argument list too long with -x, after an earlier command line"),
     ];
     for (opts, input, what) in cases {
         std::fs::write(&file, input).unwrap();
